@@ -76,7 +76,9 @@ def step (s : S) (line : String) : S × String :=
     let (fs, ok) := link s.fs fuel (parsePath old) (parsePath p)
     ({ fs := fs }, okStr ok)
   | ["snap"] => (s, snapshot s.fs)
-  | "untar" :: dest :: ents =>
+  | op :: dest :: ents =>
+    -- "untarh" / "untarhp": health.extractTarWithFallback (gzip / plain tar), which is the same extractor
+    if !(op == "untar" || op == "untarh" || op == "untarhp") then (s, "bad-op") else
     match ents.mapM parseEntry with
     | some es =>
       let (fs, ok) := untar true fuel (parsePath dest) s.fs es
@@ -113,14 +115,15 @@ def spec (s : SpecS) (op : String) (implOut : String) : SpecS × String :=
   match tokens op, tokens implOut with
   | ["snap"], [snap] => ({ before := snap }, "ok")
   | ["reset"], _ => ({}, "ok")
-  | "untar" :: dest :: _, [_, after] =>
+  | _, "panic" :: _ => (s, "fail crashed")
+  | op :: dest :: _, [_, after] =>
+    if !(op == "untar" || op == "untarh" || op == "untarhp") then (s, "ok") else
     let d := showPath (parsePath dest)
     if after.startsWith "ESCAPED" then (s, "fail outside-changed escaped-sandbox")
     else if outsideOf d s.before != outsideOf d after then (s, "fail outside-changed")
     else if (items s.before).any (fun it => it.1 == d && it.2 == "d") && !(items after).any (fun it => it.1 == d && it.2 == "d") then
       (s, "fail destination-replaced")
     else ({ before := after }, "ok")
-  | _, "panic" :: _ => (s, "fail crashed")
   | _, _ => (s, "ok")
 
 def main (args : List String) : IO Unit :=
